@@ -1,7 +1,7 @@
 (* Properties_C12.v — property C12: pruning preserves the value surface; bound interpolation is
    exact.  Only statements, each closed by [exact <lemma>] and followed by Print Assumptions. *)
 From Coq Require Import List Arith QArith Qminmax Lqa Lia Bool Permutation.
-From AIT Require Import Base.Qx Base.Mdp C12.Model C12.Spec C12.Proofs C12.ProofsInc C12.ProofsPruner C12.ProofsInterp C12.ProofsLpOpt C12.ProofsSep C12.ProofsPars.
+From AIT Require Import Base.Qx Base.Mdp C12.Model C12.Spec C12.Proofs C12.ProofsInc C12.ProofsPruner C12.ProofsInterp C12.ProofsLpOpt C12.ProofsSep C12.ProofsPars C12.Vertices C12.ProofsVertices.
 Import ListNotations.
 Local Open Scope Q_scope.
 
@@ -260,6 +260,60 @@ Theorem interp_weights_ok_refuted :
    fst (sawtoothInterpolation point ubQ pts vals) == 5#8).
 Proof. exact (conj lpi_weights_orig_refuted sawtooth_weights_orig_refuted). Qed.
 Print Assumptions interp_weights_ok_refuted.
+
+(* ---------------------------------------------------------------- findVerticesNaive (repaired code) *)
+(* for ANY linear solver: a returned vertex has non-negative coordinates all below 1 - 1e-6 (it is not
+   a corner), its limited coordinates are exactly 0, and it satisfies the equations of its selected
+   subset up to 1e-6: new plane value = each selected alpha's value = reported value, coordinates
+   sum to 1 *)
+Theorem vertices_in_simplex_approx : forall solve (newVs alphas : list vec) dim p v,
+  (2 <= dim)%nat -> Forall (fun a : vec => length a = dim) (newVs ++ alphas) -> dim = length (hd [] alphas) ->
+  In (p, v) (findVerticesNaive solve newVs alphas) ->
+  (forall x, In x p -> x < 1 - epsS) /\
+  exists newV ids, In newV newVs /\ In ids (fv_subsets dim (length alphas)) /\ length p = dim /\ nonneg p /\
+    (- epsS <= dot newV p - v /\ dot newV p - v <= epsS) /\
+    (forall idx, In idx ids -> (idx < length alphas)%nat ->
+       - epsS <= dot (nth idx alphas []) p - v /\ dot (nth idx alphas []) p - v <= epsS) /\
+    (- epsS <= qsum p - 1 /\ qsum p - 1 <= epsS) /\
+    (forall idx, In idx ids -> (length alphas <= idx)%nat -> nthq p (idx - length alphas) == 0).
+Proof.
+  intros solve newVs alphas dim p v Hd Hl He Hin. split.
+  - destruct (findVerticesNaive_basic solve newVs alphas p v Hin) as [_ H]. apply H.
+  - exact (findVerticesNaive_approx solve newVs alphas dim p v Hd Hl He Hin).
+Qed.
+Print Assumptions vertices_in_simplex_approx.
+
+(* when the linear solve is exact (A x = b) the vertex lies in the simplex and satisfies the equalities
+   of its selected planes/faces exactly *)
+Theorem vertices_exact : forall solve (newVs alphas : list vec) dim p v,
+  (forall A b, solved A b (solve A b)) -> (2 <= dim)%nat ->
+  Forall (fun a : vec => length a = dim) (newVs ++ alphas) -> alphas <> [] -> dim = length (hd [] alphas) ->
+  In (p, v) (findVerticesNaive solve newVs alphas) ->
+  exists newV ids, In newV newVs /\ In ids (fv_subsets dim (length alphas)) /\ simplex dim p /\ dot newV p == v /\
+    (forall idx, In idx ids -> (idx < length alphas)%nat -> dot (nth idx alphas []) p == v) /\
+    (forall idx, In idx ids -> (length alphas <= idx)%nat -> nthq p (idx - length alphas) == 0).
+Proof. exact findVerticesNaive_exact. Qed.
+Print Assumptions vertices_exact.
+
+(* the single-range overload: each plane against all the others *)
+Theorem vertices_range_approx : forall solve (range : list vec) dim p v,
+  (2 <= dim)%nat -> Forall (fun a : vec => length a = dim) range ->
+  In (p, v) (findVerticesNaiveRange solve range) ->
+  exists i ids, (i < length range)%nat /\
+    (let alphas := firstn i range ++ skipn (S i) range in let N := length alphas in
+     In ids (fv_subsets dim N) /\ length p = dim /\ nonneg p /\
+     (- epsS <= dot (nth i range []) p - v /\ dot (nth i range []) p - v <= epsS) /\
+     (forall idx, In idx ids -> (idx < N)%nat ->
+        - epsS <= dot (nth idx alphas []) p - v /\ dot (nth idx alphas []) p - v <= epsS) /\
+     (- epsS <= qsum p - 1 /\ qsum p - 1 <= epsS) /\
+     (forall idx, In idx ids -> (N <= idx)%nat -> nthq p (idx - N) == 0)).
+Proof. exact findVerticesNaiveRange_approx. Qed.
+Print Assumptions vertices_range_approx.
+
+(* a run of the model: two crossing planes in 2-D, exact solve supplied as a table *)
+Example ex_vertices :
+  findVerticesNaive (fun _ _ => [1#2; 1#2; 1#2]) [[1; 0]] [[0; 1]] = [([1#2; 1#2], 1#2)].
+Proof. vm_compute. reflexivity. Qed.
 
 (* ---------------------------------------------------------------- hypotheses are satisfiable *)
 Example ex_extractDominated :
